@@ -61,6 +61,8 @@ func gen(t *rapid.T) Case {
 			if rapid.Bool().Draw(t, "rmMethods") {
 				s.Methods = rapid.SampledFrom(methodSets[:4]).Draw(t, "rmm")
 			}
+		case k < 18 && rapid.IntRange(0, 2).Draw(t, "cleanInstead") == 0:
+			s = Step{Kind: "clean", Router: rapid.IntRange(0, 1).Draw(t, "cleanRouter")}
 		case k < 18:
 			s = Step{Kind: "guse", MWs: rapid.SliceOfN(rapid.IntRange(0, 7), 1, 2).Draw(t, "gmws")}
 		case k < 19:
@@ -166,6 +168,12 @@ func check(c Case, st *rig.Stats) error {
 			useSeen = true
 			if regSeen {
 				useAfterReg = true
+			}
+		case "clean":
+			if rm := routers[s.Router]; rm != nil {
+				rm.r.Clean() // the routes go; what was Use'd stays for everything registered afterwards
+				rm.routes = map[string]*routeM{}
+				classes = append(classes, "Router.Clean")
 			}
 		case "guse":
 			ms, ns := mk(s.MWs)
